@@ -1,7 +1,7 @@
 #!/usr/bin/env bash
 # tools_seed_detect.sh <SEED-ID> <check> [tier]  — run one check against the seeded worktree /tmp/seed-<ID>
 ID=$1; C=$2; T=${3:-quick}
-VERIF_REPO=/tmp/seed-$ID VERIF_TARGET_DIR=/verif/target-me /verif/check $C $T > /tmp/seed-out/$ID/detect_$C.log 2>&1
+VERIF_REPO=/tmp/seed-$ID VERIF_TARGET_DIR=${SEED_TARGET:-/verif/target-me} /verif/check $C $T > /tmp/seed-out/$ID/detect_$C.log 2>&1
 rc=$?
 echo "seed=$ID check=$C tier=$T rc=$rc"
 grep -E "what:|^VIOLATION|^C[0-9]+ (OK|FAILED)" /tmp/seed-out/$ID/detect_$C.log | cut -c1-300 | head -6
